@@ -156,7 +156,7 @@ MIDS = ["none", "ADD $, 0x3"]
 
 
 def quick_groups():
-    """(program specs, strategies, initial inputs) groups of the quick tier; also the GCC part of the thorough tier."""
+    """(program specs, strategies, initial inputs) groups of the quick tier."""
     return [
         (singles("reg", ARITH[:5], CMPS[:4], JCCS[:7]), ["branch"], IN2),
         (singles("memdirect", ["none"], CMPS[:4], JCCS[:5]), ["branch"], IN2),
@@ -165,6 +165,17 @@ def quick_groups():
         (multis(["nested"], ["reg", "memdirect"], M1[:2], MIDS, M2[:2]), ALL3, IN2M),
         (multis(["seq", "nestedft"], ["reg", "memdirect"], M1[:2], MIDS, M2[:2]), ["branch", "path"], IN2M),
         (threes(["reg"], M1[:2], ["ADD $, 0x3"], M2[:1], M3) + threes(["memdirect"], M1[3:4], ["none"], M2[1:2], M3[:1]), ALL3, IN2M),
+    ]
+
+
+def gcc_groups():
+    """The GCC backend compiles every 1-instruction block of every program (~0.4 s each): a sub-lattice."""
+    return [
+        (singles("reg", ARITH[:3], CMPS[:2], JCCS[:4]), ["branch"], IN2),
+        (singles("memdirect", ["none"], CMPS[:2], JCCS[:4]), ["branch"], IN2),
+        (singles("meminplace", ["ADD $, 0x3"], CMPS[:2], JCCS[:3]), ["branch"], IN2),
+        (multis(["nested", "seq"], ["reg", "memdirect"], M1[:1], MIDS, M2[:2]), ALL3, IN2M),
+        (threes(["reg"], M1[:1], ["ADD $, 0x3"], M2[:1], M3), ALL3, IN2M),
     ]
 
 
@@ -185,11 +196,11 @@ def plan(tier):
         (singles("meminplace", ["ADD $, 0x3", "XOR $, 0x55", "SHL $, 1", "NEG $"], CMPS[:4], JCCS[:7]), ["branch"], IN2),
         (multis(["nested", "seq", "nestedft"], ["reg", "memdirect"], M1, MIDS, M2), ALL3, IN2M),
         (multis(["nested"], ["memload"], M1[:2], MIDS, M2[:2]), ALL3, IN4),
-        (threes(["reg", "memdirect"], M1[:3], MIDS, M2[:2], M3), ALL3, IN2M),
+        (threes(["reg", "memdirect"], M1[:3], MIDS, M2[:2], M3) + threes(["memdirect"], M1[3:4], ["none"], M2[1:2], M3[:1]), ALL3, IN2M),
     ]
     for specs, strats, ins in groups:
         jobs += [(s, "python", strats, ins) for s in specs]
-    for specs, strats, ins in quick_groups():
+    for specs, strats, ins in gcc_groups():
         jobs += [(s, "gcc", strats, ins) for s in specs]
     return jobs
 
@@ -550,7 +561,20 @@ def _run(ctx):
     # a shard is a contiguous slice of the plan (programs of one family share 1-instruction blocks in the GCC cache)
     step = max(1, -(-n // NSHARDS))
     shards = [(ctx.tier, lo, min(n, lo + step)) for lo in range(0, n, step)]
-    res, schedule = adaptive.amap(ctx, _shard, shards)
+    # warm the parent before forking: parsing an assembly line costs ~0.1 s, the first DSE run imports and initialises a lot
+    for spec, be, strats, ins in js:
+        assembled(spec)
+    dse_run(js[0][0], "python", "branch", 0)
+    # Every jitter instance keeps ~0.5 MB of native memory for the life of the process (thousands of jitters are created
+    # here): on an oversubscribed machine, where mc/adaptive would run the shards in this process, run them one at a time in
+    # a forked child each instead, so that the memory goes back at the end of every shard.
+    if ctx.nproc > 1 and len(shards) > 1 and adaptive.oversubscribed():
+        import multiprocessing as mp
+        with mp.get_context("fork").Pool(1, maxtasksperchild=1) as pool:
+            res = pool.map(_shard, shards, 1)
+        schedule = "one forked child per shard, sequential"
+    else:
+        res, schedule = ctx.pmap(_shard, shards), "pool"
     tot = {}
     sigcount = {}
     outcomes = set()
@@ -580,7 +604,7 @@ def _run(ctx):
         "schedule": schedule,
         "jobs(program,backend)": n,
         "bounds": {"groups(programs,backend,strategies,inputs)": groups_text(js),
-                   "backends": ["python"] if ctx.quick else ["python", "gcc (the quick tier's groups)"], "max_branches": 3,
+                   "backends": ["python"] if ctx.quick else ["python", "gcc (a sub-lattice, see groups)"], "max_branches": 3,
                    "arith": ARITH, "compares": CMPS, "jcc": JCCS, "modes": MODES},
     }
     for k, v in tot.items():
